@@ -182,4 +182,19 @@ def wrongMarks (m : MasterIn) (obs : List (String × String × String × Option 
 /-- outlines / advances: same structure, every number within one unit -/
 def nearLists (a b : List Q) : Bool := a.length == b.length && (a.zip b).all (fun p => absQ (p.1 - p.2) ≤ 1)
 
+/-! ### the n-axis `VariationModel` (Model/C10Var) -/
+
+/-- what `VariationModel(locations)` is given by varLib: dicts (keys pairwise different) with coordinates in [-1, 1] (zeros
+    allowed), pairwise different - also after dropping the zeros -, one of them the origin -/
+def wfInput (locations : List NLoc) : Prop :=
+  (∀ l ∈ locations, (keysOf l).Nodup ∧ ∀ e ∈ l, -1 ≤ e.2 ∧ e.2 ≤ 1) ∧ allDistinct locations = true ∧
+    allDistinct (locations.map dropZeros) = true ∧ (locations.map dropZeros).contains [] = true
+
+instance (locations : List NLoc) : Decidable (wfInput locations) := by unfold wfInput; infer_instance
+
+/-- master reproduction, as a predicate on what was read back at the masters' locations: one number per master, each within
+    `tol` of that master's value -/
+def holdsReproduce (values atMasters : List Q) (tol : Q) : Bool :=
+  atMasters.length == values.length && (atMasters.zip values).all (fun p => absQ (p.1 - p.2) ≤ tol)
+
 end Ufo2ft.C10
